@@ -8,6 +8,8 @@
                                           and every stored non-empty cell / formula cell lies inside the evaluated extent,
                                           however many empty cells precede it (symbolic content of the far cell)
   P5  Evaluator.evaluate                  an address without a cell reads as blank (contracts/c04_evaluate.py)
+  P6  EvaluatorContext.eval_cell          ANY address (symbolic text) at which no cell is stored reads as blank through the real
+                                          context and evaluator, whatever the sheet holds
 """
 import z3
 
@@ -286,3 +288,42 @@ for _prop, _rows in (('C03', 150), ('C03', 400), ('C04', 150)):             # (C
         call=(lambda n: (lambda it, fn, far: range_twice_call(False, n)(it, fn, far.value)))(_rows),
         native_call=(lambda n: (lambda fn, far: range_twice_call(True, n)(fn, far.value)))(_rows),
         cross_key=lambda v: (v['first'], v['second'], v['log2']) if isinstance(v, dict) else repr(v), max_paths=200))
+
+
+# ---- P6: a reference to an address that holds no cell reads as blank - on any sheet, also one that holds nothing at all --------------
+def _unstored_call(native):
+    def call(it, fn, addr, stored):
+        from xlcalculator import evaluator, xltypes, model as Mo
+        m = Mo.Model()
+        c1, c2 = xltypes.XLCell('Calc!A1', None), xltypes.XLCell('Data!B2', None)
+        c1.value, c2.value = stored.value, 7
+        m.cells, m.defined_names, m.ranges = {'Calc!A1': c1, 'Data!B2': c2}, {}, {}
+        ev = evaluator.Evaluator(m, {})
+        w = it or _Native()
+        ctx = w.instantiate(evaluator.EvaluatorContext, [ev, 'Calc!C3'], {})
+        res = w.call(evaluator.EvaluatorContext.eval_cell, [ctx, addr], {})
+        again = w.call(evaluator.EvaluatorContext.eval_cell, [ctx, 'Calc!A1'], {})
+        return dict(res=res, again=again, cells=sorted(m.cells), sheet=ctx.sheet)
+    if native:
+        return lambda fn, addr, stored: call(None, fn, addr, stored)
+    return call
+
+
+def _unstored_ens(addr, stored, out):
+    if out.kind != 'ret':
+        return False
+    o = out.value
+    if not isinstance(o['res'], T().Blank) or o['cells'] != ['Calc!A1', 'Data!B2'] or o['sheet'] != 'Calc':
+        return False
+    return spec.is_number(type('O', (), {'kind': 'ret', 'value': o['again']})(), stored.value)
+
+
+UNITS.append(Unit(
+    id='C03/evaluator.EvaluatorContext.eval_cell/unstored_address_reads_blank', target='xlcalculator.evaluator:EvaluatorContext.eval_cell', prop='C03',
+    inputs=[('addr', Prim('str', domain=['Inputs!B2', "User Input!C3", 'Calc!Z9', 'Data!A1', 'Calc!A2', 'Notes!A1'])),
+            ('stored', Xl('Number', 'real', domain=[1.5, 0.0]))],
+    requires=lambda addr, stored: And(Not(spec.eq(addr, 'Calc!A1')), Not(spec.eq(addr, 'Data!B2'))),
+    cases=[Case('ANY address at which the model stores no cell - on a sheet with other cells or on a sheet that holds nothing - reads as blank; no cell appears, '
+                'the context keeps its sheet, and a stored cell still yields its value', lambda *a: True, _unstored_ens)],
+    call=_unstored_call(False), native_call=_unstored_call(True),
+    cross_key=lambda v: (repr(v['res']), repr(v['again']), v['cells'], v['sheet']) if isinstance(v, dict) else repr(v)))
